@@ -818,10 +818,14 @@ func (s *ShapeIndex) maybeApplyUpdates() {
 	// is fresh and when updating the status to be fresh. This guarantees
 	// that any thread that sees a status of fresh will also see the
 	// corresponding index updates.
+	verifSched("index.beforeStatusLoad")
 	if atomic.LoadInt32(&s.status) != fresh {
+		verifSched("index.beforeLock")
 		s.mu.Lock()
 		s.applyUpdatesInternal()
+		verifSched("index.beforeStatusStore")
 		atomic.StoreInt32(&s.status, fresh)
+		verifSched("index.beforeUnlock")
 		s.mu.Unlock()
 	}
 }
